@@ -8,7 +8,7 @@ PROP = dict(
     required_theorems=["Comdex.C20.roundtrip_id", "Comdex.C20.tables_wf", "Comdex.C20.roundtrip_modules",
                        "Comdex.C20.table_size", "Comdex.C20.table_prefix_counts", "Comdex.C20.table_spot_vault",
                        "Comdex.C20.table_spot_liquidity", "Comdex.C20.table_spot_market",
-                       "Comdex.C20.store_coverage_full", "Comdex.C20.import_faithful_full", "Comdex.C20.import_total_full", "Comdex.C20.import_accepts_full", "Comdex.C20.derived_sourced_full",
+                       "Comdex.C20.store_coverage_full", "Comdex.C20.import_faithful_full", "Comdex.C20.import_total_full", "Comdex.C20.import_accepts_full", "Comdex.C20.validate_keys_match_store_keys", "Comdex.C20.validate_keys_pinned", "Comdex.C20.derived_sourced_full",
                        "Comdex.C20.counters_exact_full", "Comdex.C20.fields_used_full",
                        "Comdex.C20.knownGaps_are_gaps", "Comdex.C20.suspectedGaps_are_gaps", "Comdex.C20.allowList_are_gaps",
                        "Comdex.C20.benign_counters", "Comdex.C20.counter_counterexample", "Comdex.C20.store_counterexample"],
